@@ -216,6 +216,8 @@ func runC08(p *Prog, r *Result) {
 	if n := checkRetryCounterReset(p, r, pkg, "R08g"); n == 0 {
 		r.Notef("R08g: fill() keeps no count of empty reads on this tree; the rule is armed by a control under C07")
 	}
+	r.Rule("R08h", "the here-document body reader reads input only with a body pending (doHeredocs tests it before its first read, or every call site does): after a line without one, no byte beyond the newline is asked for, so a finished statement is handed over and not called incomplete (shared with C06 R06o)", 5)
+	checkBodyReaderNeedsBody(p, r, pkg, "R08h")
 	r.Rule("R08c", "sibling agreement Parse / StmtsSeq: same sequence reset, rune, next, statements, doHeredocs under err == nil", 2)
 	r.Rule("R08e", "every newLit() is followed on every path by endLit(), a discard or an error report, so Incomplete() cannot stay true after a completed statement (shared with C10 R10c)", 15)
 	r.Rule("R08d", "every increment of openNodes/openBquotes/openBquoteDbls is followed by its decrement on every path to the exit", 4)
@@ -807,6 +809,8 @@ func checkCounters(p *Prog, r *Result, pkg *packages.Package) {
 }
 
 var c08Controls = []Control{
+	{Name: "body-reader-reads-without-a-body-pending", Rule: "R08h", WantKey: "letClause#call 1 of doHeredocs", File: "syntax/parser.go",
+		Mutate: ctlReplaceAnywhere("\thdocs := p.heredocs[p.buriedHdocs:]\n\tif len(hdocs) == 0 {\n\t\t// Nothing do do; don't even issue a read.\n\t\treturn\n\t}\n", "\thdocs := p.heredocs[p.buriedHdocs:]\n")},
 	{Name: "interactive-drops-last-line", Rule: "R08f", WantKey: "accumulated statements are yielded", File: "syntax/parser.go",
 		Mutate: ctlReplaceAnywhere("\t\tif !w.stopped && p.err == nil && len(w.accumulated) > 0 {\n\t\t\tyield(w.accumulated, nil)\n\t\t}\n", "")},
 	{Name: "regexp-paren-count-set-after-state-switch", Rule: "R08a", WantKey: "Parser.rxOpenParens", File: "syntax/parser.go",
